@@ -482,12 +482,18 @@ func verifHosts(l *roundRobinLoadBalancer) []*Host { return l.hosts.Load().([]*H
 
 //@ loop proxycore.Cluster.stayConnected #1
 //@   invariant $evTaken && typeis($evMsg, *message.SchemaChangeEvent) && $evListeners > 0 ==> $evFwd
+// C16: a refresh (reconnect) that is recorded as pending always has its timer running, so the
+// branch that performs it and clears the flag is eventually taken; without this, later topology
+// events are swallowed by the 'already pending' test.
+//@   invariant timers: refreshTimer != nil && connectTimer != nil && refreshTimer != connectTimer [C16]
+//@   invariant pending-refresh-armed: pendingRefresh ==> refreshTimer.$armed [C16]
+//@   invariant pending-connect-armed: pendingConnect ==> connectTimer.$armed [C16]
 //@ loop proxycore.Cluster.stayConnected #3
 //@   invariant $evTaken && typeis($evMsg, *message.SchemaChangeEvent)
 //@   invariant rangeindex >= 0 ==> $evFwd
 //@   invariant $evListeners == len(c.listeners)
 
-//@ func proxycore.Cluster.stayConnected [C14]
+//@ func proxycore.Cluster.stayConnected [C14, C16]
 //@   local $evTaken bool = false
 //@   local $evFwd bool = false
 //@   local $evMsg message.Message = nil
@@ -495,4 +501,7 @@ func verifHosts(l *roundRobinLoadBalancer) []*Host { return l.hosts.Load().([]*H
 //@   requires c != nil && c.config.ReconnectPolicy != nil
 //@   after select#* set $evTaken = (selidx == 4); $evFwd = false; $evListeners = len(c.listeners); $evMsg = recv4.Body.Message
 //@   before proxycore.ClusterListener.OnEvent#* set $evFwd = true
+// receiving from a timer's channel consumes its firing: case 1 of the two-way select is connectTimer.C,
+// case 3 of the five-way select is refreshTimer.C
+//@   after select#* set connectTimer.$armed = connectTimer.$armed && !(selcases == 2 && selidx == 1); refreshTimer.$armed = refreshTimer.$armed && !(selcases == 5 && selidx == 3)
 //@   modifies *
